@@ -699,11 +699,17 @@ func (f *transformationCallable) Call(argv []reflect.Value) (reflect.Value, erro
 
 	items = arrayify(items)
 
+	// The pattern can select objects that are not part of the
+	// copy (e.g. via $$ or a variable bound to an input node).
+	// Those belong to the caller and must not be modified.
+	owned := make(map[uintptr]bool)
+	collectMaps(obj, owned)
+
 	for i := 0; i < items.Len(); i++ {
 
 		simYield("transform.item", f)
 		item := jtypes.Resolve(items.Index(i))
-		if !jtypes.IsMap(item) {
+		if !jtypes.IsMap(item) || !owned[item.Pointer()] {
 			continue
 		}
 
@@ -719,6 +725,25 @@ func (f *transformationCallable) Call(argv []reflect.Value) (reflect.Value, erro
 	}
 
 	return obj, nil
+}
+
+// collectMaps records the identity of every object that is
+// part of v.
+func collectMaps(v reflect.Value, set map[uintptr]bool) {
+
+	v = jtypes.Resolve(v)
+
+	switch {
+	case jtypes.IsMap(v):
+		set[v.Pointer()] = true
+		for _, k := range v.MapKeys() {
+			collectMaps(v.MapIndex(k), set)
+		}
+	case jtypes.IsArray(v):
+		for i, N := 0, v.Len(); i < N; i++ {
+			collectMaps(v.Index(i), set)
+		}
+	}
 }
 
 func (f *transformationCallable) validateArgs(argv []reflect.Value) error {
